@@ -57,6 +57,11 @@ def setup_worker(ctx):
 
 
 def gen_defn(rng, kind, i=0):
+    if kind == "direct" and i % 8 == 5:
+        d = gen.program(rng, n_state=(6, 9), n_control=(0, 2), n_calib=(0, 3), n_sensor=(1, 2), n_reading=(4, 7),
+                        depth=1, n_shared=(1, 3))
+        d["large"] = True
+        return d
     if kind == "direct" and i % 4 == 3:
         return gen.linear_in_state_program(rng, n_state=(2, 4), n_control=(0, 2), n_calib=(0, 2), n_sensor=(1, 3),
                                            n_reading=(1, 3), depth=1, n_shared=(0, 0))
